@@ -97,6 +97,10 @@ inductive Ev where
   | sub (t : Nat)                    -- main thread is about to call Runner.Run for top-level task t
   | acc (t : Nat)                    -- … it returned nil
   | rej (t : Nat)                    -- … it returned an error
+  | fetch (t i : Nat)                -- RunLoop starts reading command i of the script of t (implementation-level
+                                     --   refinement of `cmd`, observable only where the harness supplies the input stream;
+                                     --   the model never emits it: its `cmd` step covers "read command i and enter it";
+                                     --   RunLoop's reader goroutine may still be reading after the loop has returned)
   | cmd (t i : Nat)                  -- command i of the body of t entered
   | ret (t i : Nat) (ok : Bool)      -- … its callback returns (ok = nil error); for spawn/try: the submission result
   | done (t : Nat) (ok : Bool)       -- runner's child context of t closed: commit (ok) / rollback
@@ -438,6 +442,8 @@ def Ok (g : Graph) (pre : List Ev) : Ev → Prop
   | .rej t => Ev.sub t ∈ pre
   | .cmd t i => i < (g.body t).length ∧ Ev.cmd t i ∉ pre ∧ ¬ hasDone pre t ∧
       (if i = 0 then submitted g pre t ∧ waitsOk g pre t else cmdDoneOk g pre t (i - 1))
+  | .fetch t i => i < (g.body t).length ∧ Ev.fetch t i ∉ pre ∧
+      (if i = 0 then submitted g pre t ∧ waitsOk g pre t else cmdDoneOk g pre t (i - 1))
   | .ret t i ok => Ev.cmd t i ∈ pre ∧ ¬ hasRet pre t i ∧ ¬ hasDone pre t ∧ retOk g pre t i ok
   | .done t ok => ¬ hasDone pre t ∧
       (∀ i ∈ List.range (g.body t).length, Ev.cmd t i ∈ pre → cmdClosed g pre t i) ∧
@@ -445,14 +451,25 @@ def Ok (g : Graph) (pre : List Ev) : Ev → Prop
        else causeFor g pre t)
   | .mwait ok => (∀ t ∈ List.range g.n, acceptedEv g pre t → hasDone pre t) ∧
       (if ok then ∀ e ∈ pre, isDoneFail e = false else anyCause pre)
-  | .fin t ok => hasMwait pre ∧ hasDone pre t ∧
+  | .fin t ok => hasMwait pre ∧
       (if ok then ∀ u ∈ List.range g.n, Ev.done u false ∈ pre → g.ctx u ≠ g.ctx t else causeFor g pre t)
   | .root ok => hasMwait pre ∧
       (if ok then ∀ u ∈ List.range g.n, Ev.done u false ∈ pre → g.ctx u ≠ 0 else causeIn g 0 pre)
 
+/-- second group of clauses: an error report is *exactly* a task of that context having closed with
+an error (the converse of the `if ok` branches of `Ok`) -/
+def Ok2 (g : Graph) (pre : List Ev) : Ev → Prop
+  | .mwait false => ∃ e ∈ pre, isDoneFail e = true
+  | .fin t false => ∃ u ∈ List.range g.n, Ev.done u false ∈ pre ∧ g.ctx u = g.ctx t
+  | .root false => ∃ u ∈ List.range g.n, Ev.done u false ∈ pre ∧ g.ctx u = 0
+  | _ => True
+
 /-- the declarative property of a trace -/
 def TraceOk (g : Graph) (tr : List Ev) : Prop :=
   ∀ pre e post, tr = pre ++ e :: post → Ok g pre e
+
+def TraceOk2 (g : Graph) (tr : List Ev) : Prop :=
+  ∀ pre e post, tr = pre ++ e :: post → Ok2 g pre e
 
 instance (pre : List Ev) (t : Nat) : Decidable (hasDone pre t) := by unfold hasDone; infer_instance
 instance (pre : List Ev) (t i : Nat) : Decidable (hasRet pre t i) := by unfold hasRet; infer_instance
@@ -474,10 +491,13 @@ instance (g : Graph) (pre : List Ev) (t i : Nat) (ok : Bool) : Decidable (retOk 
 instance (g : Graph) (pre : List Ev) (e : Ev) : Decidable (Ok g pre e) := by
   cases e <;> unfold Ok <;> infer_instance
 
+instance (g : Graph) (pre : List Ev) (e : Ev) : Decidable (Ok2 g pre e) := by
+  unfold Ok2; split <;> infer_instance
+
 /-- the monitor proper: `pre` = events already consumed -/
 def acceptsFrom (g : Graph) (pre : List Ev) : List Ev → Bool
   | [] => true
-  | e :: rest => decide (Ok g pre e) && acceptsFrom g (pre ++ [e]) rest
+  | e :: rest => decide (Ok g pre e ∧ Ok2 g pre e) && acceptsFrom g (pre ++ [e]) rest
 
 /-- the trace monitor of C14/C16 -/
 def accepts (g : Graph) (tr : List Ev) : Bool := acceptsFrom g [] tr
@@ -485,7 +505,7 @@ def accepts (g : Graph) (tr : List Ev) : Bool := acceptsFrom g [] tr
 /-- position (0-based) of the first event that is not `Ok`, for the driver's `reject <seq>` line -/
 def firstBad (g : Graph) (pre : List Ev) : List Ev → Option (Nat × Ev)
   | [] => none
-  | e :: rest => if Ok g pre e then firstBad g (pre ++ [e]) rest else some (pre.length, e)
+  | e :: rest => if Ok g pre e ∧ Ok2 g pre e then firstBad g (pre ++ [e]) rest else some (pre.length, e)
 
 /-! ### The defect of the pinned tree: a rejected submission stays in the table with its latch armed
 
